@@ -82,10 +82,6 @@ Definition ideal_set (sl : slot) (x : R) (s : spdc) : spdc :=
   end.
 End Ideal.
 
-(* precondition under which the CURRENT code is claimed to implement a slot (finding: the poling-period setter ignores unpoled bases) *)
-Definition slot_pre (sl : slot) (s : spdc) : Prop :=
-  match sl with SPolingPeriod => s_pp s <> Off | _ => True end.
-
 (* lookup in an association list keyed by strings *)
 Fixpoint assoc {A : Type} (k : string) (l : list (string * A)) : option A :=
   match l with
